@@ -1,0 +1,78 @@
+//! Verification hooks (feature `verif-hooks`): dumps of the crate-private tables,
+//! produced by running the current code over its complete finite domains.
+#![allow(missing_docs)]
+
+use crate::{
+    constants::{CIPHERKEYLEN, MAXBLOCKLEN, MAXDHLEN, MAXHASHLEN, MAXMSGLEN, PSKLEN, TAGLEN},
+    params::{
+        DhToken, HandshakeChoice, HandshakeModifier, HandshakeModifierList, HandshakeTokens,
+        Token, SUPPORTED_HANDSHAKE_PATTERNS,
+    },
+};
+use core::{convert::TryFrom, fmt::Write};
+
+fn tok(t: Token) -> String {
+    match t {
+        Token::E => "e".into(),
+        Token::S => "s".into(),
+        Token::Dh(DhToken::Ee) => "ee".into(),
+        Token::Dh(DhToken::Es) => "es".into(),
+        Token::Dh(DhToken::Se) => "se".into(),
+        Token::Dh(DhToken::Ss) => "ss".into(),
+        Token::Psk(n) => format!("psk{n}"),
+        #[cfg(feature = "hfs")]
+        _ => "hfs".into(),
+    }
+}
+
+fn toks(ts: &[Token]) -> String {
+    ts.iter().map(|t| tok(*t)).collect::<Vec<_>>().join(",")
+}
+
+/// `tokens <pattern> <modifier-list>`: the result of `HandshakeTokens::try_from`.
+/// Modifiers: comma separated `pskN` / `fallback`, or `-` for none.
+#[must_use]
+pub fn tokens_line(pattern_index: usize, mods: &[HandshakeModifier]) -> String {
+    let Some(pattern) = SUPPORTED_HANDSHAKE_PATTERNS.get(pattern_index) else {
+        return "nopattern".into();
+    };
+    let choice = HandshakeChoice {
+        pattern:   *pattern,
+        modifiers: HandshakeModifierList { list: mods.to_vec() },
+    };
+    match HandshakeTokens::try_from(&choice) {
+        Ok(t) => format!(
+            "ok pre_i=[{}] pre_r=[{}] msgs=[{}]",
+            toks(t.premsg_pattern_i),
+            toks(t.premsg_pattern_r),
+            t.msg_patterns.iter().map(|m| toks(m)).collect::<Vec<_>>().join("|")
+        ),
+        Err(e) => format!("err {e:?}"),
+    }
+}
+
+/// One line per constant and per supported pattern.
+#[must_use]
+pub fn dump_tables() -> String {
+    let mut o = String::new();
+    let _ = writeln!(
+        o,
+        "const PSKLEN={PSKLEN} CIPHERKEYLEN={CIPHERKEYLEN} TAGLEN={TAGLEN} MAXHASHLEN={MAXHASHLEN} \
+         MAXBLOCKLEN={MAXBLOCKLEN} MAXMSGLEN={MAXMSGLEN} MAXDHLEN={MAXDHLEN} MAX_PSKS=10"
+    );
+    for (i, p) in SUPPORTED_HANDSHAKE_PATTERNS.iter().enumerate() {
+        let _ = writeln!(
+            o,
+            "pattern {} name={} oneway={} needs_s_i={} needs_s_r={} needs_rs_i={} needs_rs_r={} {}",
+            i,
+            p.as_str(),
+            p.is_oneway(),
+            p.needs_local_static_key(true),
+            p.needs_local_static_key(false),
+            p.need_known_remote_pubkey(true),
+            p.need_known_remote_pubkey(false),
+            tokens_line(i, &[])
+        );
+    }
+    o
+}
